@@ -150,9 +150,11 @@ class OpGen:
         s, feat = self.ug.url()
         return {"op": "ctor", "s": s}
 
-    def host_text(self):
+    def host_text(self, valid=False):
         r = self.rng
         k = r.random()
+        if valid:
+            k *= 0.93
         if k < 0.45:
             return r.choice(REG_HOSTS)
         if k < 0.6:
@@ -167,7 +169,7 @@ class OpGen:
         r = self.rng
         kw = {}
         if r.random() < 0.85:
-            kw["scheme"] = r.choice(SCHEMES_VALID) if r.random() < 0.95 or self.valid_only else self.text(2)
+            kw["scheme"] = r.choice(SCHEMES_VALID)
         has_host = r.random() < 0.8
         if has_host:
             if r.random() < 0.15:
@@ -177,7 +179,7 @@ class OpGen:
                     if r.random() < 0.5:
                         a += ":" + self.tg.plain(3)
                     a += "@"
-                h = self.host_text()
+                h = self.host_text(valid=True)  # build(authority=) does not validate: hostile hosts there belong to C16/C19
                 a += f"[{h}]" if ":" in h else h
                 if r.random() < 0.4:
                     a += ":" + r.choice(["0", "80", "443", "8080"])
